@@ -40,7 +40,9 @@ import (
 //
 // answers    options:   <mode result of strict>
 //            optmodes:  S=<r> L=<r> U=<r> C=<r>     (strict, lenient, unlinked, strict on what unlinked consumed)
-// mode result  ok <tree> r=<remaining statement indexes|-> d=<hex default|-> j=<hex json_name|->
+// mode result  ok <tree> r=<remaining statement indexes|-> [n=<k> [DIFF <i>:<tree>,r=<rest>]*] d=<hex default|-> j=<hex json_name|->
+//              (n=: number of elements sharing the options clause, e.g. the ranges of one `extensions`
+//              statement; every one of them is decoded, DIFF lists those that differ from the first)
 //            | err <class> | linkerr <class> | parseerr
 
 type optionsEngine struct {
@@ -101,7 +103,17 @@ var optOptionsNames = [9]string{"FileOptions", "MessageOptions", "FieldOptions",
 var optElems = map[string][2]int{
 	"file": {0, 1}, "message": {1, 3}, "field": {2, 4}, "extfield": {2, 4}, "oneof": {3, 5},
 	"extrange": {4, 2}, "enum": {5, 6}, "enumvalue": {6, 7}, "service": {7, 8}, "method": {8, 9},
+	// further places where options are attached (same options messages, other traversal paths)
+	"oneoffield": {2, 4}, "nfield": {2, 4}, "nextfield": {2, 4}, "mapfield": {2, 4}, "groupfield": {2, 4},
+	"groupmsg": {1, 3}, "nmessage": {1, 3}, "nenum": {5, 6}, "nenumvalue": {6, 7},
 }
+
+// element kinds that take <kind>:<label>
+var optFieldLike = map[string]bool{"field": true, "extfield": true, "oneoffield": true, "nfield": true, "nextfield": true}
+
+// element kinds whose answer carries d= / j=
+var optHasPseudo = map[string]bool{"field": true, "extfield": true, "oneoffield": true, "nfield": true, "nextfield": true,
+	"mapfield": true, "groupfield": true}
 
 func optKindTok(fd protoreflect.FieldDescriptor, s *optSchema) string {
 	switch fd.Kind() {
@@ -424,6 +436,7 @@ type optStmt struct {
 type optOp struct {
 	Syntax string // p2 p3 e23
 	Elem   string
+	Count  int // elements sharing the one options clause (extension ranges of one statement)
 	FKind  string
 	FLabel string
 	Stmts  []optStmt
@@ -602,11 +615,23 @@ func optParseOp(op string, s *optSchema) (*optOp, bool) {
 	if _, ok := optElems[o.Elem]; !ok {
 		return nil, false
 	}
-	if o.Elem == "field" || o.Elem == "extfield" {
+	o.Count = 1
+	if o.Elem == "extrange" && len(el) == 2 {
+		c, err := strconv.Atoi(el[1])
+		if err != nil || c < 2 || c > 4 {
+			return nil, false
+		}
+		o.Count = c
+		el = el[:1]
+	}
+	if optFieldLike[o.Elem] {
 		if len(el) != 3 {
 			return nil, false
 		}
 		o.FKind, o.FLabel = el[1], el[2]
+		if o.Elem == "oneoffield" && o.FLabel != "o" {
+			return nil, false
+		}
 		if _, ok := optKindProto[o.FKind]; !ok {
 			if len(o.FKind) < 2 || (o.FKind[0] != 'e' && o.FKind[0] != 'm') {
 				return nil, false
@@ -830,7 +855,26 @@ func (o *optOp) render(s *optSchema, keep map[int]bool) string {
 	case "oneof":
 		sb.WriteString("message U {\n  oneof o {\n" + long("    ") + "    int32 a = 1;\n  }\n}\n")
 	case "extrange":
-		sb.WriteString("message U {\n  extensions 100 to 199" + compact + ";\n}\n")
+		rs := []string{"100 to 199", "300 to 399", "500", "700 to 799"}[:o.Count]
+		sb.WriteString("message U {\n  extensions " + strings.Join(rs, ", ") + compact + ";\n}\n")
+	case "oneoffield":
+		sb.WriteString("message U {\n  oneof o {\n    " + o.typeName(s) + " f = 1" + compact + ";\n  }\n}\n")
+	case "nfield":
+		sb.WriteString("message U {\n  message N {\n    " + label() + o.typeName(s) + " f = 1" + compact + ";\n  }\n}\n")
+	case "nextfield":
+		sb.WriteString("message U {\n  extend s.Host {\n    " + label() + o.typeName(s) + " ux = 150" + compact + ";\n  }\n}\n")
+	case "mapfield":
+		sb.WriteString("message U {\n  map<string, int32> f = 1" + compact + ";\n}\n")
+	case "groupfield":
+		sb.WriteString("message U {\n  optional group G = 1" + compact + " {\n    optional int32 a = 1;\n  }\n}\n")
+	case "groupmsg":
+		sb.WriteString("message U {\n  optional group G = 1 {\n" + long("    ") + "    optional int32 a = 1;\n  }\n}\n")
+	case "nmessage":
+		sb.WriteString("message U {\n  message N {\n" + long("    ") + "  }\n}\n")
+	case "nenum":
+		sb.WriteString("message U {\n  enum NE {\n" + long("    ") + "    NE0 = 0;\n  }\n}\n")
+	case "nenumvalue":
+		sb.WriteString("message U {\n  enum NE {\n    NE0 = 0" + compact + ";\n  }\n}\n")
 	case "enum":
 		sb.WriteString("enum UE {\n" + long("  ") + "  UE0 = 0;\n}\n")
 	case "enumvalue":
@@ -903,36 +947,72 @@ type optElemRef struct {
 	uninter []*descriptorpb.UninterpretedOption
 }
 
-func optFindElem(fd *descriptorpb.FileDescriptorProto, elem string) optElemRef {
-	var r optElemRef
+// optFindElems returns the element(s) of u.proto that carry the statements, in declaration order.
+func optFindElems(fd *descriptorpb.FileDescriptorProto, elem string, count int) []optElemRef {
 	msg := func() *descriptorpb.DescriptorProto {
 		if len(fd.MessageType) > 0 {
 			return fd.MessageType[0]
 		}
 		return &descriptorpb.DescriptorProto{}
 	}
+	nested := func() *descriptorpb.DescriptorProto {
+		if len(msg().NestedType) > 0 {
+			return msg().NestedType[0]
+		}
+		return &descriptorpb.DescriptorProto{}
+	}
+	fieldRef := func(fs []*descriptorpb.FieldDescriptorProto) optElemRef {
+		var r optElemRef
+		if len(fs) > 0 {
+			f := fs[0]
+			r.def, r.json = f.DefaultValue, f.JsonName
+			if f.Options != nil {
+				r.opts, r.uninter = f.Options, f.Options.UninterpretedOption
+			}
+		}
+		return r
+	}
+	enumRef := func(es []*descriptorpb.EnumDescriptorProto, value bool) optElemRef {
+		var r optElemRef
+		if len(es) == 0 {
+			return r
+		}
+		if !value {
+			if o := es[0].Options; o != nil {
+				r.opts, r.uninter = o, o.UninterpretedOption
+			}
+		} else if len(es[0].Value) > 0 {
+			if o := es[0].Value[0].Options; o != nil {
+				r.opts, r.uninter = o, o.UninterpretedOption
+			}
+		}
+		return r
+	}
+	msgRef := func(m *descriptorpb.DescriptorProto) optElemRef {
+		var r optElemRef
+		if o := m.Options; o != nil {
+			r.opts, r.uninter = o, o.UninterpretedOption
+		}
+		return r
+	}
+	var r optElemRef
 	switch elem {
 	case "file":
 		if fd.Options != nil {
 			r.opts, r.uninter = fd.Options, fd.Options.UninterpretedOption
 		}
 	case "message":
-		if o := msg().Options; o != nil {
-			r.opts, r.uninter = o, o.UninterpretedOption
-		}
-	case "field", "extfield":
-		var f *descriptorpb.FieldDescriptorProto
-		if elem == "field" && len(msg().Field) > 0 {
-			f = msg().Field[0]
-		} else if elem == "extfield" && len(fd.Extension) > 0 {
-			f = fd.Extension[0]
-		}
-		if f != nil {
-			r.def, r.json = f.DefaultValue, f.JsonName
-			if f.Options != nil {
-				r.opts, r.uninter = f.Options, f.Options.UninterpretedOption
-			}
-		}
+		r = msgRef(msg())
+	case "groupmsg", "nmessage":
+		r = msgRef(nested())
+	case "field", "oneoffield", "mapfield", "groupfield":
+		r = fieldRef(msg().Field)
+	case "nfield":
+		r = fieldRef(nested().Field)
+	case "extfield":
+		r = fieldRef(fd.Extension)
+	case "nextfield":
+		r = fieldRef(msg().Extension)
 	case "oneof":
 		if len(msg().OneofDecl) > 0 {
 			if o := msg().OneofDecl[0].Options; o != nil {
@@ -940,23 +1020,25 @@ func optFindElem(fd *descriptorpb.FileDescriptorProto, elem string) optElemRef {
 			}
 		}
 	case "extrange":
-		if len(msg().ExtensionRange) > 0 {
-			if o := msg().ExtensionRange[0].Options; o != nil {
-				r.opts, r.uninter = o, o.UninterpretedOption
+		var rs []optElemRef
+		for i := 0; i < count; i++ {
+			var x optElemRef
+			if i < len(msg().ExtensionRange) {
+				if o := msg().ExtensionRange[i].Options; o != nil {
+					x.opts, x.uninter = o, o.UninterpretedOption
+				}
 			}
+			rs = append(rs, x)
 		}
+		return rs
 	case "enum":
-		if len(fd.EnumType) > 0 {
-			if o := fd.EnumType[0].Options; o != nil {
-				r.opts, r.uninter = o, o.UninterpretedOption
-			}
-		}
+		r = enumRef(fd.EnumType, false)
 	case "enumvalue":
-		if len(fd.EnumType) > 0 && len(fd.EnumType[0].Value) > 0 {
-			if o := fd.EnumType[0].Value[0].Options; o != nil {
-				r.opts, r.uninter = o, o.UninterpretedOption
-			}
-		}
+		r = enumRef(fd.EnumType, true)
+	case "nenum":
+		r = enumRef(msg().EnumType, false)
+	case "nenumvalue":
+		r = enumRef(msg().EnumType, true)
 	case "service":
 		if len(fd.Service) > 0 {
 			if o := fd.Service[0].Options; o != nil {
@@ -970,7 +1052,7 @@ func optFindElem(fd *descriptorpb.FileDescriptorProto, elem string) optElemRef {
 			}
 		}
 	}
-	return r
+	return []optElemRef{r}
 }
 
 const (
@@ -1142,7 +1224,7 @@ func optHexOpt(p *string) string {
 }
 
 // runMode parses, (links) and interprets src in one mode and describes the chosen element.
-func (st *optState) runMode(mode, src, elem string, fkind string) (out string, restIdx []int) {
+func (st *optState) runMode(mode, src, elem string, count int, fkind string) (out string, restIdx []int) {
 	defer func() {
 		if r := recover(); r != nil {
 			// protobuf-go puts a regular or a non-breaking space after "proto:", chosen per build
@@ -1170,11 +1252,17 @@ func (st *optState) runMode(mode, src, elem string, fkind string) (out string, r
 		return "parseerr", nil
 	}
 	fd := res.FileDescriptorProto()
-	var before, beforePtr []*descriptorpb.UninterpretedOption
+	// per element: the original option objects and copies of them
+	var before, beforePtr [][]*descriptorpb.UninterpretedOption
 	snapshot := func() {
-		for _, u := range optFindElem(fd, elem).uninter {
-			beforePtr = append(beforePtr, u)
-			before = append(before, proto.Clone(u).(*descriptorpb.UninterpretedOption))
+		for _, ref := range optFindElems(fd, elem, count) {
+			var ps, cs []*descriptorpb.UninterpretedOption
+			for _, u := range ref.uninter {
+				ps = append(ps, u)
+				cs = append(cs, proto.Clone(u).(*descriptorpb.UninterpretedOption))
+			}
+			beforePtr = append(beforePtr, ps)
+			before = append(before, cs)
 		}
 	}
 	if mode == "unlinked" {
@@ -1196,32 +1284,48 @@ func (st *optState) runMode(mode, src, elem string, fkind string) (out string, r
 	if err != nil {
 		return "err " + optErrClass(err), nil
 	}
-	ref := optFindElem(fd, elem)
-	var rest []string
-	used := map[int]bool{}
-	for _, u := range ref.uninter {
-		// a remaining option must be one of the original objects, unchanged
-		found := -1
-		for i, b := range before {
-			if !used[i] && beforePtr[i] == u && proto.Equal(u, b) {
-				found = i
-				break
+	refs := optFindElems(fd, elem, count)
+	describe := func(k int) (string, []int) {
+		var rest []string
+		var idx []int
+		used := map[int]bool{}
+		for _, u := range refs[k].uninter {
+			// a remaining option must be one of the original objects, unchanged
+			found := -1
+			for i, b := range before[k] {
+				if !used[i] && beforePtr[k][i] == u && proto.Equal(u, b) {
+					found = i
+					break
+				}
+			}
+			if found < 0 {
+				rest = append(rest, "?")
+			} else {
+				used[found] = true
+				rest = append(rest, strconv.Itoa(found))
+				idx = append(idx, found)
 			}
 		}
-		if found < 0 {
-			rest = append(rest, "?")
-		} else {
-			used[found] = true
-			rest = append(rest, strconv.Itoa(found))
-			restIdx = append(restIdx, found)
+		r := "-"
+		if len(rest) > 0 {
+			r = strings.Join(rest, ",")
+		}
+		return st.dumpOptions(refs[k].opts) + " r=" + r, idx
+	}
+	ref := refs[0]
+	first, idx0 := describe(0)
+	restIdx = idx0
+	out = "ok " + first
+	if len(refs) > 1 {
+		// every element that shares the options clause must end up like the first
+		out += " n=" + strconv.Itoa(len(refs))
+		for k := 1; k < len(refs); k++ {
+			if d, _ := describe(k); d != first {
+				out += " DIFF " + strconv.Itoa(k) + ":" + strings.ReplaceAll(d, " ", ",")
+			}
 		}
 	}
-	r := "-"
-	if len(rest) > 0 {
-		r = strings.Join(rest, ",")
-	}
-	out = "ok " + st.dumpOptions(ref.opts) + " r=" + r
-	if elem == "field" || elem == "extfield" {
+	if optHasPseudo[elem] {
 		def := ref.def
 		if mode == "unlinked" && fkind != "" && (fkind[0] == 'e' || fkind[0] == 'm') && len(fkind) > 1 && fkind[1] >= '0' && fkind[1] <= '9' {
 			fkind = "dbl" // an unlinked field with a named type is treated as TYPE_DOUBLE
@@ -1283,12 +1387,12 @@ func (e *optionsEngine) Exec(op string) string {
 		return "bad-op"
 	}
 	src := o.render(e.st.schema, nil)
-	s, _ := e.st.runMode("strict", src, o.Elem, o.FKind)
+	s, _ := e.st.runMode("strict", src, o.Elem, o.Count, o.FKind)
 	if e.name == "options" {
 		return s
 	}
-	l, _ := e.st.runMode("lenient", src, o.Elem, o.FKind)
-	u, urest := e.st.runMode("unlinked", src, o.Elem, o.FKind)
+	l, _ := e.st.runMode("lenient", src, o.Elem, o.Count, o.FKind)
+	u, urest := e.st.runMode("unlinked", src, o.Elem, o.Count, o.FKind)
 	c := "-"
 	if strings.HasPrefix(u, "ok ") {
 		keep := map[int]bool{}
@@ -1298,7 +1402,7 @@ func (e *optionsEngine) Exec(op string) string {
 		for _, i := range urest {
 			delete(keep, i)
 		}
-		c, _ = e.st.runMode("strict", o.render(e.st.schema, keep), o.Elem, o.FKind)
+		c, _ = e.st.runMode("strict", o.render(e.st.schema, keep), o.Elem, o.Count, o.FKind)
 	}
 	return "S=" + s + " L=" + l + " U=" + u + " C=" + c
 }
@@ -1826,10 +1930,18 @@ func (g *optGen) statement(mi int, custom int) []string {
 	return append(out, v...)
 }
 
-var optElemKinds = []string{"file", "message", "field", "oneof", "extrange", "enum", "enumvalue", "service", "method", "extfield"}
+var optElemKinds = []string{"file", "message", "field", "oneof", "extrange", "enum", "enumvalue", "service", "method", "extfield",
+	"oneoffield", "nfield", "nextfield", "mapfield", "groupfield", "groupmsg", "nmessage", "nenum", "nenumvalue", "extrange"}
 
 func (g *optGen) elemTok(kind string, syntax string) string {
-	if kind != "field" && kind != "extfield" {
+	if kind == "extrange" {
+		// one to four ranges in one statement, sharing the options clause
+		if c := 1 + g.r.Intn(4); c > 1 {
+			return "extrange:" + strconv.Itoa(c)
+		}
+		return kind
+	}
+	if !optFieldLike[kind] {
 		return kind
 	}
 	r := g.r
@@ -1846,7 +1958,7 @@ func (g *optGen) elemTok(kind string, syntax string) string {
 	}
 	k := ks[r.Intn(len(ks))]
 	label := "o"
-	if r.Intn(5) == 0 {
+	if r.Intn(5) == 0 && kind != "oneoffield" {
 		label = "r"
 	}
 	if syntax == "p3" && strings.HasPrefix(k, "e") && g.s.Enums[optMustAtoi(k[1:])].Closed {
@@ -1855,17 +1967,23 @@ func (g *optGen) elemTok(kind string, syntax string) string {
 	return kind + ":" + k + ":" + label
 }
 
+// element kinds that proto3 / editions files cannot contain
+var optNoProto3 = map[string]bool{"extrange": true, "extfield": true, "nextfield": true, "groupfield": true, "groupmsg": true}
+var optNoEditions = map[string]bool{"groupfield": true, "groupmsg": true}
+
 func optMustAtoi(s string) int { i, _ := strconv.Atoi(s); return i }
 
 func optSyntaxFor(r *Rand, kind string) string {
 	switch r.Intn(4) {
 	case 0:
-		if kind != "extrange" && kind != "extfield" {
+		if !optNoProto3[kind] {
 			return "p3"
 		}
 		return "p2"
 	case 1:
-		return "e23"
+		if !optNoEditions[kind] {
+			return "e23"
+		}
 	}
 	return "p2"
 }
@@ -1879,7 +1997,7 @@ func (g *optGen) op(kind string, syntax string, nst int, custom int) string {
 	el := g.elemTok(kind, syntax)
 	toks := []string{"opt", syntax, el, strconv.Itoa(nst)}
 	for i := 0; i < nst; i++ {
-		if (kind == "field" || kind == "extfield") && syntax != "p3" && g.r.Intn(4) == 0 {
+		if optHasPseudo[kind] && syntax != "p3" && g.r.Intn(4) == 0 {
 			toks = append(toks, g.pseudo(el)...)
 			continue
 		}
@@ -1933,7 +2051,10 @@ func (g *optGen) pseudo(el string) []string {
 		js := []string{"s:6162", "s:66", "s:7578", "s:5b615d", "s:-", "s:5b", "u:1", "id:foo"}
 		return []string{"1", "n:json_name", js[r.Intn(len(js))]}
 	}
-	k := p[1]
+	k := "i32"
+	if len(p) > 1 {
+		k = p[1]
+	}
 	var v string
 	switch {
 	case g.isWrong() || r.Intn(10) == 0:
@@ -2153,6 +2274,71 @@ func optDirected() []string {
 	return ops
 }
 
+// optElemFamily: every place where options can be attached x mixes of standard and custom options
+// in both orders, repeated options set several times, message-typed custom options through
+// sub-field paths; extension ranges with one to four ranges sharing the one options clause.
+func optElemFamily() []string {
+	type ek struct {
+		tok, pfx, std string // element token, prefix of its custom options in s.proto, a standard statement
+		syn           []string
+	}
+	dep := "1 n:deprecated id:true"
+	els := []ek{
+		{"file", "fi", dep, []string{"p2", "p3", "e23"}},
+		{"message", "me", dep, []string{"p2", "p3", "e23"}},
+		{"nmessage", "me", dep, []string{"p2", "e23"}},
+		{"groupmsg", "me", dep, []string{"p2"}},
+		{"field:i32:o", "fl", dep, []string{"p2", "e23"}},
+		{"field:str:r", "fl", dep, []string{"p2", "p3"}},
+		{"nfield:i32:o", "fl", dep, []string{"p2"}},
+		{"oneoffield:i32:o", "fl", dep, []string{"p2", "p3", "e23"}},
+		{"mapfield", "fl", dep, []string{"p2", "p3", "e23"}},
+		{"groupfield", "fl", dep, []string{"p2"}},
+		{"extfield:i32:o", "fl", dep, []string{"p2", "e23"}},
+		{"nextfield:i32:r", "fl", dep, []string{"p2"}},
+		{"oneof", "oo", "1 n:features { }", []string{"e23"}},
+		{"oneof", "oo", "", []string{"p2", "p3"}},
+		{"enum", "en", dep, []string{"p2", "p3", "e23"}},
+		{"nenum", "en", dep, []string{"p2"}},
+		{"enumvalue", "ev", dep, []string{"p2", "p3", "e23"}},
+		{"nenumvalue", "ev", dep, []string{"p2"}},
+		{"service", "sv", dep, []string{"p2", "p3", "e23"}},
+		{"method", "mt", "1 n:idempotency_level id:IDEMPOTENT", []string{"p2", "p3", "e23"}},
+		{"extrange", "er", "1 n:verification id:UNVERIFIED", []string{"p2", "e23"}},
+		{"extrange:2", "er", "1 n:verification id:UNVERIFIED", []string{"p2", "e23"}},
+		{"extrange:3", "er", "1 n:verification id:UNVERIFIED", []string{"p2"}},
+		{"extrange:4", "er", "1 n:verification id:UNVERIFIED", []string{"p2", "e23"}},
+	}
+	var ops []string
+	for _, e := range els {
+		S := e.std
+		C := "1 x:s." + e.pfx + "_i32 u:7"
+		C2 := "1 x:s." + e.pfx + "_str s:78"
+		R := func(v string) string { return "1 x:s." + e.pfx + "_rs u:" + v }
+		M1 := "2 x:s." + e.pfx + "_m0 n:f1 u:1"
+		M2 := "3 x:s." + e.pfx + "_m0 n:f18 n:f2 u:2"
+		M3 := "2 x:s." + e.pfx + "_m0 n:f20 u:3"
+		RM := func(v string) string { return "1 x:s." + e.pfx + "_rm0 { n:f1 : u:" + v + " }" }
+		pats := [][]string{
+			{C}, {C, C2}, {C2, C}, {R("7"), R("8"), R("9")}, {M1, M2}, {M2, M1, M3, M3}, {RM("1"), RM("2")}, {C, C},
+			{R("1"), C, R("2"), M1, R("3")},
+		}
+		if S != "" {
+			pats = append(pats, [][]string{
+				{S}, {S, C}, {C, S}, {S, R("7")}, {R("7"), S}, {S, R("7"), R("8")}, {R("7"), S, R("8")}, {R("7"), R("8"), S},
+				{S, M1, M2}, {M1, S, M2}, {S, RM("1"), RM("2")}, {RM("1"), S, RM("2")}, {S, C, R("1"), M1, C2, R("2")},
+				{C, R("1"), S, R("2"), M2}, {S, S}, {S, C, C},
+			}...)
+		}
+		for _, syn := range e.syn {
+			for _, p := range pats {
+				ops = append(ops, "opt "+syn+" "+e.tok+" "+strconv.Itoa(len(p))+" "+strings.Join(p, " "))
+			}
+		}
+	}
+	return ops
+}
+
 func (e *optionsEngine) Gen(r *Rand, tier string) [][]string {
 	thorough := tier == "thorough"
 	modes := e.name == "optmodes"
@@ -2171,6 +2357,7 @@ func (e *optionsEngine) Gen(r *Rand, tier string) [][]string {
 		}
 	}
 	chunk(optDirected())
+	chunk(optElemFamily())
 	if !modes {
 		chunk(optPseudoGrid(kst))
 		chunk(optCalib(kst))
@@ -2203,13 +2390,13 @@ func (e *optionsEngine) Gen(r *Rand, tier string) [][]string {
 		var ops []string
 		for _, kind := range optElemKinds {
 			for _, syn := range []string{"p2", "p3", "e23"} {
-				if syn == "p3" && (kind == "extrange" || kind == "extfield") {
+				if (syn == "p3" && optNoProto3[kind]) || (syn == "e23" && optNoEditions[kind]) {
 					continue
 				}
 				oi := optElems[kind]
 				mi := kst.schema.OptIdx[oi[0]]
 				el := kind
-				if kind == "field" || kind == "extfield" {
+				if optFieldLike[kind] {
 					el += ":i32:o"
 				}
 				var fs []*optField
